@@ -169,8 +169,7 @@ def upscaleAffine (fm : Mode) (fs : List (Stats α)) (tm : Mode) (ts : List (Sta
     let fw := f.map Prod.fst
     let fb := f.map Prod.snd
     let rows := zip3With (fun (t : Stats α) w bi =>
-      let (tw, tb) := makeScaling tm t
-      upscaleAffineRow fw fb tw tb w bi) ts W b
+      upscaleAffineRow fw fb (makeScaling tm t).1 (makeScaling tm t).2 w bi) ts W b
     some (rows.map Prod.fst, rows.map Prod.snd)
   else Option.none
 
